@@ -120,12 +120,14 @@ func Authorize(ctx context.Context, policies cedar.PolicyIterator, entities type
 	findVariables(&found, request.Action)
 	findVariables(&found, request.Resource)
 	findVariables(&found, request.Context)
-	for key := range found.All() {
+	// Check the names in sorted order, not in Go map order: when more than one variable is unbound (or unused), the
+	// one named in the error must not change from one call to the next.
+	for _, key := range slices.Sorted(found.All()) {
 		if _, ok := request.Variables[key]; !ok {
 			return fmt.Errorf("%w: %v", errUnboundVariable, key)
 		}
 	}
-	for k := range request.Variables {
+	for _, k := range slices.Sorted(maps.Keys(request.Variables)) {
 		if !found.Contains(k) {
 			return fmt.Errorf("%w: %v", errUnusedVariable, k)
 		}
